@@ -166,7 +166,14 @@ fn gen_mixed() -> BoxedStrategy<Value> {
 
 /// The same semantics observed from a real process: stdout = log lines then the result line.
 fn check_cli(case: &Value, obs: &mut Obs) -> Result<(), String> {
-    let (rule, data) = (rule_of(case), data_of(case));
+    let (rule, data) = match (via_text(rule_of(case)), via_text(data_of(case))) {
+        (Some(r), Some(d)) => (r, d),
+        _ => {
+            obs.skip("text-unstable-float");
+            return Ok(());
+        }
+    };
+    let (rule, data) = (&rule, &data);
     let (m, ctx) = model::eval(rule, data);
     let profile = if case["release"].as_bool().unwrap_or(false) { "release" } else { "dev" };
     let bin = match cli::bin(profile) {
